@@ -38,7 +38,7 @@ from tensordict._lazy import LazyStackedTensorDict
 from tensordict._nestedkey import NestedKey
 from tensordict._pytree import _register_td_node
 from tensordict._td import is_tensor_collection, NO_DEFAULT, TensorDict, TensorDictBase
-from tensordict._torch_func import TD_HANDLED_FUNCTIONS
+from tensordict._torch_func import _same_non_tensor, TD_HANDLED_FUNCTIONS
 from tensordict.base import (
     _ACCEPTED_CLASSES,
     _GET_DEFAULTS_TO_NONE,
@@ -3401,6 +3401,21 @@ class NonTensorData:
     ) -> Callable:
         # A modified version of __torch_function__ to account for the different behaviour
         # of stack, which should return lazy stacks of data of data does not match.
+        if func is torch.cat and all(
+            issubclass(t, (cls, NonTensorStack)) for t in types
+        ):
+            kwargs = kwargs or {}
+            items = args[0] if args else kwargs["tensors"]
+            if not _same_non_tensor(items):
+                # values that differ across the operands (or stacks among them): side by
+                # side along dim, one per position (as torch.stack does)
+                dim = args[1] if len(args) > 1 else kwargs.get("dim", 0)
+                if dim < 0:
+                    dim = dim + items[0].ndim
+                return NonTensorStack(
+                    *[piece for item in items for piece in item.unbind(dim)],
+                    stack_dim=dim,
+                )
         if func not in _TD_PASS_THROUGH or not all(
             issubclass(t, (Tensor, cls)) for t in types
         ):
